@@ -39,7 +39,10 @@ PROPS = {
         'units': ['builder', 'registry', 'encode', 'bytesio'],
         'kani': ['to_le_bytes_spec'],
         'scans': ['determinism'],
-        'own': {'builder': r'MapBuilder|SetBuilder|Builder::(new|new_type|finish|into_inner|bytes_written|get_ref|insert|add|memory|into_fst|extend_iter)$|from_iter', 'registry': r'Registry::hash|Registry::entry'},
+        'own': {'builder': r'MapBuilder|SetBuilder|Builder::(new|new_type|finish|into_inner|bytes_written|get_ref|insert|add|memory|into_fst|extend_iter)$|from_iter', 'registry': r'Registry::hash|Registry::entry',
+                # the encoders are deterministic functions of their arguments whatever they write (their content is C09's); the byte writers must
+                # hand every byte to the sink (else the output depends on the sink)
+                'encode': r'^$', 'bytesio': r'io_write|pack_uint'},
         'level_text': 'Proof of delegation: MapBuilder::{new, insert, finish, into_inner, get_ref, bytes_written}, SetBuilder::{...} and '
                       'Builder::{new, finish} are verified to be exactly the raw-builder calls (same result, same state), so the raw, map and '
                       'set builders are one code path; every emitting function appends a byte string that is a spec function of builder '
@@ -225,6 +228,10 @@ PROPS = {
     'C07': {
         'units': ['cw', 'bytesio', 'encode', 'builder'],
         'kani': ['to_le_bytes_spec'],
+        # the functions that talk to the sink (what is written where is C01/C09's business: pack_size, the PackSizes setters and the
+        # stack operations do no I/O)
+        'own': {'bytesio': r'io_write|pack_uint', 'encode': r'compile|pack_delta|pack_uint',
+                'builder': r'Builder::(new|new_type|compile|compile_from|insert_output|insert|add|into_inner|finish|bytes_written|get_ref|extend_iter|extend_stream|memory|into_fst)$|CountingWriter|MapBuilder|SetBuilder'},
         'level_text': 'Proof per function: CountingWriter::write re-establishes count == bytes accepted and checksum == CRC of the bytes '
                       'accepted for every behaviour the sink contract allows (any accepted prefix, any error); every emitting builder '
                       'function appends, through write_all, a byte string that is a spec function of builder state and arguments.',
@@ -248,7 +255,8 @@ PROPS = {
     'C11': {
         'units': ['cw', 'bytesio', 'encode', 'builder'],
         'kani': ['to_le_bytes_spec'],
-        'own': {'builder': r'Builder::(into_inner|new_type|new|compile|compile_from|insert_output|insert|add)$'},
+        'own': {'builder': r'Builder::(into_inner|new_type|new|compile|compile_from|insert_output|insert|add|finish)$|MapBuilder::(finish|into_inner)|SetBuilder::(finish|into_inner)',
+                'bytesio': r'io_write|pack_uint', 'encode': r'compile|pack_delta|pack_uint'},
         'level_text': 'Proof: every writing function is verified against the sink model: it reports Ok only if every byte of its output '
                       'was accepted (sink\' == sink + expected bytes) and cannot panic; a failing write/flush propagates through `?`.',
         'level_note': 'The error *variant* (Error::Io) follows from impl From<io::Error> (verified) and the definition of `?` (Verus only '
